@@ -47,6 +47,10 @@ Cases == { [Base EXCEPT !.alg = a, !.sans = s] : a \in Algs, s \in Sans }
          (* never also an alternative name, whichever purposes are asked for and whether or not alternative names are given            *)
          \cup { [Base EXCEPT !.cn = n, !.org = o, !.clientAuth = ca, !.serverAuth = sa, !.sans = s] :
                   n \in {"host-like", "ip-like", "email-like", "url-like"}, o \in {"$default", "host-like"}, ca \in Bool, sa \in Bool, s \in {<<>>, <<"dns">>, <<"ip4">>} }
+         (* an alternative name that repeats the common name is still an alternative name; every key algorithm under every purpose *)
+         \cup { [Base EXCEPT !.cn = "host-like", !.sans = s, !.clientAuth = ca, !.serverAuth = sa] :
+                  s \in {<<"same-as-cn">>, <<"same-as-cn", "dns">>, <<"dns", "same-as-cn">>}, ca \in Bool, sa \in Bool }
+         \cup { [Base EXCEPT !.alg = a, !.clientAuth = ca, !.serverAuth = sa] : a \in Algs, ca \in Bool, sa \in Bool }
          \cup { [Base EXCEPT !.country = c, !.names = np, !.dir = d] : c \in {"nonprintable-gt", "nonascii"}, np \in NamePairs, d \in Dirs }
          \cup { [Base EXCEPT !.alg = a, !.sans = <<"nonascii">>, !.dir = d] : a \in Algs, d \in Dirs }
 (* length sweeps: an offending (non-ASCII, two-octet) character after k ASCII letters, so that it sits at and across every *)
